@@ -41,6 +41,19 @@ func (e *Eng) modSet(fn *ssa.Function) map[string]bool {
 			break
 		}
 	}
+	// ghost variables assigned by the site clauses of the function's own contract are part of what it writes
+	if e.spec != nil {
+		if fs := e.spec.Funcs[fnKey(fn)]; fs != nil {
+			for _, s := range fs.Sites {
+				if s.SetGhost != "" {
+					for _, r := range e.resolveRegionPattern(s.SetGhost) {
+						m[r] = true
+						gen[r] = true
+					}
+				}
+			}
+		}
+	}
 	return m
 }
 
@@ -440,6 +453,30 @@ func (e *Eng) loopMods(fr *Frame, body map[*ssa.BasicBlock]bool) (map[string]boo
 			e.curGen = gen
 			e.freshScope = body
 			e.instrMods(fr.fn, ins, m)
+			// ghost assignments attached to a site inside the loop
+			if fr.fspec != nil {
+				kind, name := "", ""
+				switch x := ins.(type) {
+				case *ssa.Call:
+					kind, name = "call", calleeName(x.Common())
+				case *ssa.Defer:
+					kind, name = "call", calleeName(x.Common())
+				case *ssa.Go:
+					kind, name = "go", calleeName(x.Common())
+				case *ssa.MakeSlice:
+					kind, name = "make", descr(x.Len, 0)
+				}
+				if kind != "" {
+					for _, s := range fr.fspec.Sites {
+						if s.SetGhost != "" && s.Kind == kind && s.Callee == name && (s.Ordinal == 0 || s.Ordinal == e.ordinalOf(fr, ins)) {
+							for _, r := range e.resolveRegionPattern(s.SetGhost) {
+								m[r] = true
+								gen[r] = true
+							}
+						}
+					}
+				}
+			}
 		}
 	}
 	e.curGen = saved
